@@ -166,44 +166,49 @@ Fixpoint until_closer (op : str) (acc : str) (s : str) : option (str * str) :=
       if starts_with op s then Some (rev acc ++ op, drop_n (length op) s)
       else until_closer op (c :: acc) s'
   end.
-(* finditer: list of (start offset, end offset, text) *)
-Fixpoint find_quoted (fuel : nat) (q : cp) (pos : nat) (prev_bsl : bool) (s : str) : list (nat * nat * str) :=
+(* one alternative of the search pattern at the head of s: opener, lazily anything, the opener text again *)
+Definition quoted_at (q : cp) (prev_bsl : bool) (s : str) : option (str * str) :=   (* literal, rest *)
+  match opener_at q prev_bsl s with
+  | Some op =>
+      match until_closer op [] (drop_n (length op) s) with
+      | Some (body, rest) => Some (op ++ body, rest)
+      | None => None
+      end
+  | None => None
+  end.
+(* re.sub over the alternation  single-quoted | double-quoted  with a replacement function: ONE scan from left to
+   right; at every position the single-quote alternative is tried first, then the double-quote one; a match is
+   consumed as a whole (quote characters of the other flavour inside it neither open nor close anything) and replaced
+   in place by a fresh placeholder -- except a double-quoted match that contains a dollar (an expression), which is
+   left as it is.  out is the output so far, reversed. *)
+Fixpoint scan_literals (fuel : nat) (prev_bsl : bool) (count : Z) (out : str) (tab : list (N * str)) (s : str)
+  : str * Z * list (N * str) :=
   match fuel with
-  | O => []
+  | O => (rev out ++ s, count, tab)
   | S f =>
       match s with
-      | [] => []
+      | [] => (rev out, count, tab)
       | c :: s' =>
-          match opener_at q prev_bsl s with
-          | Some op =>
-              match until_closer op [] (drop_n (length op) s) with
-              | Some (body, rest) =>
-                  let txt := op ++ body in
-                  let e := (pos + length txt)%nat in
-                  (pos, e, txt) :: find_quoted f q e (match rev txt with x :: _ => x =? c_bsl | [] => false end) rest
-              | None => find_quoted f q (S pos) (c =? c_bsl) s'
+          match quoted_at c_sq prev_bsl s with
+          | Some (lit, rest) =>
+              let k := counter_next count in
+              scan_literals f false k (rev (placeholder w_STRINGLITERAL (Z.to_N k)) ++ out)
+                            (tupdate tab [(Z.to_N k, remove_quotes lit)]) rest
+          | None =>
+              match quoted_at c_dq prev_bsl s with
+              | Some (lit, rest) =>
+                  if has_char c_dollar lit then scan_literals f false count (rev lit ++ out) tab rest
+                  else
+                    let k := counter_next count in
+                    scan_literals f false k (rev (placeholder w_STRINGLITERAL (Z.to_N k)) ++ out)
+                                  (tupdate tab [(Z.to_N k, remove_quotes lit)]) rest
+              | None => scan_literals f (c =? c_bsl) count (c :: out) tab s'
               end
-          | None => find_quoted f q (S pos) (c =? c_bsl) s'
           end
       end
   end.
-Definition inside_any (start : nat) (ms : list (nat * nat * str)) : bool :=
-  existsb (fun m => let '(a, b, _) := m in Nat.ltb a start && Nat.ltb start b) ms.
 Definition extract_string_literals (count : Z) (text : str) : str * Z * list (N * str) :=
-  let sq := find_quoted (S (length text)) c_sq 0 false text in
-  let dq0 := find_quoted (S (length text)) c_dq 0 false text in
-  let dq := filter (fun m => negb (has_char c_dollar (snd m))) dq0 in
-  let txt (m : nat * nat * str) := snd m in
-  let sq_nested := filter (fun m => inside_any (fst (fst m)) dq) sq in
-  let sq_free := filter (fun m => negb (inside_any (fst (fst m)) dq)) sq in
-  let dq_nested := filter (fun m => inside_any (fst (fst m)) sq) dq in
-  let dq_free := filter (fun m => negb (inside_any (fst (fst m)) sq)) dq in
-  let lits := map txt sq_free ++ map txt dq_free ++ map txt sq_nested ++ map txt dq_nested in
-  fold_left (fun (acc : str * Z * list (N * str)) (lit : str) =>
-               let '(t, c, tab) := acc in
-               let k := counter_next c in
-               (replace_all lit (placeholder w_STRINGLITERAL (Z.to_N k)) t, k,
-                tupdate tab [(Z.to_N k, remove_quotes lit)])) lits (text, count, []).
+  scan_literals (S (length text)) false count [] [] text.
 
 (* ---- _extract_expressions ---------------------------------------------------------------------- *)
 (* findall: double quote, non-quote characters, dollar, lazily to the next double quote *)
